@@ -234,6 +234,11 @@ def case_lit(inp, obs):
 
 def run(ctx):
     ctx.prove()
+    import translate_qubotools as T
+    # same key as C01: both checks write the same coq/gen/QuboGen.v, so they share one lock
+    ctx.gen_step("qubotools", T.translate, "C13_gen",
+                 "harness/translate_qubotools.py (ast -> Gallina printer: numpy/scipy matrix expressions of qubo_tools.py "
+                 "into the combinators of coq/theories/PyQubo.v; kinds of values, let-sequencing, ownership filter)")
     rng = ctx.rng
     n_mat = 60 if ctx.quick else 2000
     n_vec = 6 if ctx.quick else 20
